@@ -38,6 +38,7 @@ package mqtt
 //@ requires C32-lock-not-held-by-this-goroutine: i.RWMutex.lheld == 0
 //@ ensures C32-lock-released-on-return: i.RWMutex.lheld == 0
 //@ ensures r0 == len(i.internal)
+//@ ensures empty-table-has-no-entries: r0 == 0 ==> (forall k uint16 :: !has(i.internal, k))
 
 // verif:func mqtt.Inflight.Delete
 //@ requires C32-lock-not-held-by-this-goroutine: i.RWMutex.lheld == 0
@@ -623,6 +624,7 @@ package mqtt
 //@ requires validCl(cl) && cl.ops.info != nil
 //@ ensures C08-C09-only-completed-acks-are-removed: forall k uint16 :: old(has(ifl(cl), k)) && old(ifl(cl)[k].FixedHeader.Type) != Puback && old(ifl(cl)[k].FixedHeader.Type) != Pubcomp ==> has(ifl(cl), k) && ifl(cl)[k] == old(ifl(cl)[k])
 //@ ensures C09-resent-with-dup-and-original-id: forall n int :: old(cl.nsent) <= n && n < cl.nsent ==> (cl.sentpk[n].FixedHeader.Type == Publish ==> cl.sentpk[n].FixedHeader.Dup) && wasInflight(cl, cl.sentpk[n].PacketID) && cl.sentpk[n].FixedHeader.Type == wasType(cl, cl.sentpk[n].PacketID)
+//@ ensures C09-C12-every-stored-message-is-sent-again: r0 == nil ==> (forall k uint16 :: old(has(ifl(cl), k)) ==> (exists n int :: old(cl.nsent) <= n && n < cl.nsent && cl.sentpk[n].PacketID == k))
 // C20 / C21: taking a session over deletes its in-flight records from the store (ClearInflights of the old connection reports each as
 // dropped); the new connection persists each one again as it resends it, whatever stage of its exchange the record is in
 //@ callsite mqtt.Client.WritePacket C20-every-resent-inflight-record-is-persisted-again: arg0 == cl && evkind[nev - 1] == EV_QOS_PUBLISH() && evcl[nev - 1] == cl && evid[nev - 1] == int(arg1.PacketID)
@@ -632,6 +634,8 @@ package mqtt
 //@ invariant id: forall n int :: old(cl.nsent) <= n && n < cl.nsent ==> wasInflight(cl, cl.sentpk[n].PacketID)
 //@ invariant type: forall n int :: old(cl.nsent) <= n && n < cl.nsent ==> cl.sentpk[n].FixedHeader.Type == wasType(cl, cl.sentpk[n].PacketID)
 //@ invariant validCl(cl) && cl.ops.info != nil && cl.nsent >= old(cl.nsent)
+//@ invariant sent-so-far: forall j int :: 0 <= j && j <= rangeindex ==> (exists n int :: old(cl.nsent) <= n && n < cl.nsent && cl.sentpk[n].PacketID == rangeslice[j].PacketID)
+//@ invariant the-list-is-the-stored-messages: forall k uint16 :: old(has(ifl(cl), k)) ==> (exists j int :: 0 <= j && j < len(rangeslice) && rangeslice[j].PacketID == k)
 
 // ======================================================================================
 // Delivery to one subscriber (C03, C04, C10, C11, C17, C24, C34, C38)
